@@ -209,9 +209,9 @@ def find_fn(s, name, lo=0, hi=None, depth_limit=True):
     return item_start, fn_idx, ob, cb
 
 
-def find_enum(s, name):
+def find_enum(s, name, kw='enum'):
     mask = _code_mask(s)
-    for m in re.finditer(r'\benum\s+' + re.escape(name) + r'\b', s):
+    for m in re.finditer(r'\b' + kw + r'\s+' + re.escape(name) + r'\b', s):
         if not mask[m.start()]:
             continue
         # must be at depth 0
